@@ -21,9 +21,9 @@ CONFIG = dict(
           "generator on words m-1, m, m+1, 0, u64::MAX around m = floor(p*2^64) for p on a grid (0, -0, 5e-324, 2^-64, 2^-63, "
           "0.1..0.9, 1-2^-53, 1, invalid p) and random p, and 10^5-draw frequency tests with ChaCha12 (5 sigma); real Loop with "
           "counting condition wrapper and counting body for n in {0,1,2,7,100} and random n, iteration- and evaluation-bounded "
-          "(body adds 1..9 evaluations per pass). A case is non-trivial unless it is a single grid point with n = 0 or an empty "
+          "(body adds 1..9 evaluations per pass). A case is non-trivial unless it is a LessThanN grid point with n = 0 or an empty "
           "history/formula; distinct = distinct input."),
-    nontrivial=lambda inp: not re.match(r"\((lt [uef]|every) (0|x0000000000000000) ", inp) and "(vals)" not in inp and len(inp) > 10,
+    nontrivial=lambda inp: not re.match(r"\(lt [uef] (0|x0000000000000000) ", inp) and "(vals)" not in inp and len(inp) > 10,
     trusted_base=[
         "rand 0.8.8 Bernoulli::new / sample (p_int = (p * 2^64) as u64, ALWAYS_TRUE for p = 1, one u64 per sample) — modelled "
         "from the vendored source and checked with scripted words on both sides of the threshold",
@@ -35,7 +35,7 @@ CONFIG = dict(
 CONFIG.update(
     level_text=("Lean 4 theorems: LessThanN is true iff value < n and writes value/n; a Loop guarded by LessThanN over the iteration "
                 "counter makes exactly n passes, n+1 tests, ends with counter n and (exact arithmetic, n>=1) progress 1, for every n; "
-                "with a body adding step per pass it makes the least p with p*step >= n; EveryN = (n | value) for n >= 1; "
+                "with a body adding step per pass it makes the least p with p*step >= n; EveryN = (n | value) for every n incl. 0 (only multiple of 0 is 0); "
                 "OptimumReached iff a best value exists and best - optimum <= eps (= |best - optimum| <= eps above the optimum); ChangeOf "
                 "over every history fires at k iff k = 0 or the value differs (by the checker) from the value last reported, for both "
                 "checkers; And/Or/Not compute the Boolean combination and evaluate every operand exactly once in order (no short-circuit), "
@@ -45,7 +45,6 @@ CONFIG.update(
     level_note=("Trusted: Lean kernel; rand 0.8.8 word-to-bool mapping as modelled (checked on scripted words); the State registry; "
                 "native double arithmetic for the progress value. Theorems about progress = 1 and OptimumReached are in exact (ordered "
                 "field) arithmetic; the float side is checked by K/O only. Observation (not a violation of the stated property): with "
-                "n = 0 LessThanN reports progress 0/0 = NaN. Known findings: EveryN with n = 0 panics (remainder by zero); the "
-                "constructor accepts any u32 and the documentation does not exclude 0. ChangeOf + DeltaEqChecker<SingleObjective> "
-                "fires on every evaluation while the value stays +inf (inf - inf = NaN)."),
+                "n = 0 LessThanN reports progress 0/0 = NaN. Known finding: ChangeOf + DeltaEqChecker<SingleObjective> "
+                "fires on every evaluation while the value stays +inf (inf - inf = NaN). (EveryN with n = 0 was repaired in /repo c00d550.)"),
 )
